@@ -219,6 +219,14 @@ class State:
             return False
         if k == "nonempty":
             return is_lit(c[1]) and len(c[1][2]) == 0
+        if k in ("hasattr", "nohasattr"):
+            if self.holds(("nohasattr" if k == "hasattr" else "hasattr", c[1], c[2])):
+                return True
+            ts = self.types(c[1])
+            if ts is not None and ts and all(t in _ATTRS for t in ts):
+                has = [c[2] in _ATTRS[t] for t in ts]
+                return all(has) if k == "nohasattr" else not any(has)
+            return False
         return False
 
 
